@@ -210,6 +210,70 @@ theorem iterAll_exact (H : Hier) : ∀ (f : Nat) (c : Name) (out : List Name),
       | inside hr hb hreg hcov =>
         exact (hinv.done _ (reachSeen _ hr) _ hb).2.2 hreg _ hcov
 
+/-! ## `__iter__` starts with the head -/
+
+theorem go_prefix (H : Hier) (f : Nat) (c : Name) :
+    ∀ (g : Nat) (queue seen out result : List Name),
+      iterAll.go H f c g queue seen out = .ok result → ∃ suffix, result = out ++ suffix := by
+  intro g
+  induction g with
+  | zero => intro q s o r h; simp [iterAll.go] at h
+  | succ g ih =>
+    intro queue seen out result h
+    cases queue with
+    | nil =>
+      simp only [iterAll.go, Except.ok.injEq] at h
+      exact ⟨[], by simp [h]⟩
+    | cons name rest =>
+      simp only [iterAll.go] at h
+      split at h
+      · exact ih _ _ _ _ h
+      · split at h
+        · exact ih _ _ _ _ h
+        · next b hb =>
+          cases hreg : b.isRegion with
+          | false =>
+            simp only [hreg, Bool.false_eq_true, if_false, bind, Except.bind, pure, Except.pure] at h
+            obtain ⟨suf, hs⟩ := ih _ _ _ _ h
+            exact ⟨[name] ++ suf, by simp [hs]⟩
+          | true =>
+            simp only [hreg, if_true, bind, Except.bind] at h
+            cases hin : iterAll H f b.name with
+            | error e => simp [hin] at h
+            | ok inner =>
+              simp only [hin] at h
+              obtain ⟨suf, hs⟩ := ih _ _ _ _ h
+              exact ⟨[name] ++ inner ++ suf, by simp [hs]⟩
+
+/-- **`SCFG.__iter__` starts with the head**: whenever the model answers and the head is a member of
+    the level, it is the first name yielded. -/
+theorem iterAll_head_first (H : Hier) (f : Nat) (c : Name) (out : List Name) (hd : Name)
+    (h : iterAll H f c = .ok out) (hh : findHead H c = .ok hd) (hm : (H.getIn? c hd).isSome) :
+    out.head? = some hd := by
+  cases f with
+  | zero => simp [iterAll] at h
+  | succ f =>
+    rw [iterAll] at h
+    simp only [hh, bind, Except.bind] at h
+    obtain ⟨b, hb⟩ := Option.isSome_iff_exists.mp hm
+    -- the first round of the loop yields the head
+    rw [show (H.level c).length + List.foldl (fun n x => n + x.jts.length) 0 (H.level c) + 4 =
+        ((H.level c).length + List.foldl (fun n x => n + x.jts.length) 0 (H.level c) + 3) + 1 by omega] at h
+    simp only [iterAll.go, mem, List.contains_nil, Bool.false_eq_true, if_false, hb] at h
+    cases hreg : b.isRegion with
+    | false =>
+      simp only [hreg, Bool.false_eq_true, if_false, bind, Except.bind, pure, Except.pure] at h
+      obtain ⟨suf, hs⟩ := go_prefix H f c _ _ _ _ _ h
+      simp [hs]
+    | true =>
+      simp only [hreg, if_true, bind, Except.bind] at h
+      cases hin : iterAll H f b.name with
+      | error e => simp [hin] at h
+      | ok inner =>
+        simp only [hin] at h
+        obtain ⟨suf, hs⟩ := go_prefix H f c _ _ _ _ _ h
+        simp [hs]
+
 /-! ## The concealed view: exactly the members reachable through regions-as-single-nodes -/
 
 /-- members of level `c` the concealed view gets to: the head, and every member that is a view
